@@ -8,12 +8,12 @@ from ..gen import c12_source as _BOX                      # translated BODIES of
 
 
 def translate():
-    return _translate_exprs() + _BOX.translate() + _BOX.translate_maths() + _BOX.translate_prims() + _BOX.translate_writes() + _BOX.translate_vec()
+    return _translate_exprs() + _BOX.translate() + _BOX.translate_maths() + _BOX.translate_prims() + _BOX.translate_writes() + _BOX.translate_vec() + _BOX.translate_rot() + _BOX.translate_circ()
 
 
 PID = "C12"
 TITLE = "Geometric primitives and boxes obey their algebra, with no side effects"
-LEAN_MODULES = ["Mouette.Props.C12", "Mouette.Props.C12R", "Mouette.Props.C12G", "Mouette.Props.C12T", "Mouette.Props.C12H", "Mouette.Props.C12S", "Mouette.Props.C12M", "Mouette.Props.C12V"]
+LEAN_MODULES = ["Mouette.Props.C12", "Mouette.Props.C12R", "Mouette.Props.C12G", "Mouette.Props.C12T", "Mouette.Props.C12H", "Mouette.Props.C12S", "Mouette.Props.C12M", "Mouette.Props.C12V", "Mouette.Props.C12Rt", "Mouette.Props.C12Ci"]
 REQUIRED_THEOREMS = [
     "project_in_box", "project_realises_l1", "project_realises_linf", "project_realises_l2", "contained_dist_zero",
     "union_contains", "inter_is_overlap", "doIntersect_iff_overlap", "ofPoints_contains", "ofPoints_tight",
@@ -52,6 +52,11 @@ REQUIRED_THEOREMS = [
     "normG_box", "vecNorm_eq_normG", "dot_bridge", "distance_bridge", "normalized_bridge", "normalized_frame", "normalize_frame",
     "cotan_bridge", "cotan_source_reciprocal_tan", "faceBasis_orthogonal", "faceBasis_normal_is_circumcenter_axis", "vec_new_is_view",
     "accessor_table",
+    # round 7: FloatOps (the ONE statement of what is assumed about floats: Lemmas/FloatOpsR.lean), whole bodies of rotations.py (Props/C12Rt.lean)
+    "float_assumptions_consistent", "rotate2d_bridge", "rotateAroundAxis_bridge", "rotate_2d_source_isometry", "rotate_2d_source_compose",
+    "rotate_around_axis_source_isometry", "rotate_around_axis_source_fixes_axis", "rotate_around_axis_source_compose",
+    # round 7: whole body of circumcenter (Generated/C12Circ.lean, the frame of face_basis as parameters; Props/C12Ci.lean)
+    "circumcenter_source_equidistant", "circumcenter_source_raises_iff",
 ]
 
 # Which function of the anchor files is tied to the model how.  "translated": a definition of Generated/C12*.lean is emitted from
@@ -76,9 +81,8 @@ SOURCE_MAP = {
     _G + "dot": "translated",             # V2.dot / V3.dot of Model/Prim.lean (np.dot)
     _G + "distance": "translated",        # squared norm of the difference
     _G + "cotan": "translated",           # Prim.cotanPair (the code normalises first: cotanPair_scale)
-    _G + "circumcenter": "modelled",    # Prim.circumcenter (closed form); the two functions it goes through, face_basis and intersect_2lines2D, are translated
-                                        # (faceBasis_orthogonal, faceBasis_normal_is_circumcenter_axis, intersect2_on_both_lines); its own body mixes three different
-                                        # normalisation factors per component and is tied by the correspondence + the equidistance oracle (all scales)
+    _G + "circumcenter": "translated",  # Generated/C12Circ.lean: whole body, the three vectors returned by face_basis as parameters (Props/C12Ci.lean:
+                                        # circumcenter_source_equidistant for every orthonormal frame normal to the triangle, circumcenter_source_raises_iff)
     _G + "face_basis": "translated",   # reached through circumcenter only
     _G + "sign": "out-of-scope: not used by a clause of the statement",
     _G + "signed_angle_3pts": "out-of-scope: thin wrapper of signed_angle_2vec3D, not exercised",
